@@ -92,7 +92,15 @@ pub fn decode(wire: &[u8]) -> Decoded {
             return done(data, Status::Gray { at: line_start, why: "blank, sign or non-ASCII in chunk size" }, complete);
         }
         if let Some(ext) = ext {
-            if !ext.iter().all(|&b| b == b'\t' || (0x20..0x7f).contains(&b)) {
+            // obs-text (>= 0x80) is legal inside a quoted extension value; outside of quotes it is not
+            let mut in_quotes = false;
+            let ok = ext.iter().all(|&b| {
+                if b == b'"' {
+                    in_quotes = !in_quotes;
+                }
+                b == b'\t' || (0x20..0x7f).contains(&b) || (in_quotes && b >= 0x80)
+            });
+            if !ok {
                 return done(data, Status::Gray { at: line_start, why: "control or non-ASCII byte in chunk extension" }, complete);
             }
         }
